@@ -143,6 +143,35 @@ impl TaskCtx {
     }
 }
 
+/// An `Object` whose real drop (the last `Rc` going away, possibly at the end of an operation of
+/// another task that still uses it) is recorded in the history.
+pub struct Tracked<T> {
+    pub val: T,
+    cookie: Uuid,
+    w: std::rc::Weak<World>,
+}
+
+impl<T> Tracked<T> {
+    pub fn new(val: T, cookie: Uuid, w: &Rc<World>) -> Rc<Self> {
+        Rc::new(Tracked { val, cookie, w: Rc::downgrade(w) })
+    }
+}
+
+impl<T> std::ops::Deref for Tracked<T> {
+    type Target = T;
+    fn deref(&self) -> &T {
+        &self.val
+    }
+}
+
+impl<T> Drop for Tracked<T> {
+    fn drop(&mut self) {
+        if let Some(w) = self.w.upgrade() {
+            w.hist_teardown_start_obj(self.cookie);
+        }
+    }
+}
+
 pub enum SndEnd {
     Unclaimed(UnclaimedSender),
     Pending(PendingSender),
@@ -216,7 +245,7 @@ pub struct ClientCtx {
     pub proto: Proto,
     pub handle: RefCell<Option<Rc<Handle>>>,
     pub extra: RefCell<Vec<Handle>>,
-    pub objs: Vec<Slot<Rc<Object>>>,
+    pub objs: Vec<Slot<Rc<Tracked<Object>>>>,
     pub svcs: Vec<Slot<Service>>,
     pub proxies: Vec<Slot<Proxy>>,
     pub stash: RefCell<VecDeque<(PendingReply, u64, Uuid)>>,
@@ -229,7 +258,7 @@ pub struct ClientCtx {
     /// listeners on which `destroy()` has succeeded
     pub lis_destroyed: RefCell<Vec<bool>>,
     pub disc: Vec<Slot<Discoverer<u8>>>,
-    pub scopes: Vec<Slot<Rc<LifetimeScope>>>,
+    pub scopes: Vec<Slot<Rc<Tracked<LifetimeScope>>>>,
     pub lts: Vec<Slot<Lifetime>>,
     pub shutdown_requested: Cell<bool>,
     /// a pending reply was dropped and the client has not verifiably processed the abort yet
@@ -568,6 +597,22 @@ impl World {
         self.hist.borrow_mut().tick()
     }
 
+    /// The tear-down of an object (and with it of its services) begins: an explicit destroy is
+    /// about to be requested, or the last reference to the value is being dropped.
+    pub fn hist_teardown_start_obj(&self, obj_cookie: Uuid) {
+        let svcs: Vec<Uuid> = self.board.borrow().svc_owner.iter().filter(|(_, (_, oc))| *oc == obj_cookie).map(|(c, _)| *c).collect();
+        let mut h = self.hist.borrow_mut();
+        let t = h.tick();
+        if let Some(l) = h.objs.get_mut(&obj_cookie) {
+            l.teardown_start.get_or_insert(t);
+        }
+        for c in svcs {
+            if let Some(l) = h.svcs.get_mut(&c) {
+                l.teardown_start.get_or_insert(t);
+            }
+        }
+    }
+
     fn hist_teardown_end_obj(&self, obj_cookie: Uuid) {
         let svcs: Vec<Uuid> = self.board.borrow().svc_owner.iter().filter(|(_, (_, oc))| *oc == obj_cookie).map(|(c, _)| *c).collect();
         let mut h = self.hist.borrow_mut();
@@ -603,14 +648,15 @@ impl World {
         }
     }
 
-    fn note_service_teardown(&self, owner: usize, cookie: Uuid) {
-        {
-            let mut h = self.hist.borrow_mut();
-            let t = h.tick();
-            if let Some(l) = h.svcs.get_mut(&cookie) {
-                l.teardown_start.get_or_insert(t);
-            }
+    pub fn hist_teardown_start_svc(&self, cookie: Uuid) {
+        let mut h = self.hist.borrow_mut();
+        let t = h.tick();
+        if let Some(l) = h.svcs.get_mut(&cookie) {
+            l.teardown_start.get_or_insert(t);
         }
+    }
+
+    fn note_service_teardown(&self, owner: usize, cookie: Uuid) {
         let b = self.board.borrow();
         let mut inflight = false;
         let mut cross = false;
@@ -640,13 +686,6 @@ impl World {
     }
 
     fn note_object_teardown(&self, owner: usize, obj_cookie: Uuid) {
-        {
-            let mut h = self.hist.borrow_mut();
-            let t = h.tick();
-            if let Some(l) = h.objs.get_mut(&obj_cookie) {
-                l.teardown_start.get_or_insert(t);
-            }
-        }
         let svcs: Vec<Uuid> = self.board.borrow().svc_owner.iter().filter(|(_, (o, oc))| *o == owner && *oc == obj_cookie).map(|(c, _)| *c).collect();
         for c in svcs {
             self.note_service_teardown(owner, c);
@@ -889,6 +928,7 @@ async fn exec(w: &Rc<World>, t: &Rc<TaskCtx>, cc: &Rc<ClientCtx>, op: &Op) -> St
             let r = t.req("create_object", h.create_object(obj_uuid(*u))).await;
             let s = res_name(&r);
             if let Ok(obj) = r {
+                let cookie_of_obj = obj.id().cookie.0;
                 {
                     let mut hist = w.hist.borrow_mut();
                     let t1 = hist.tick();
@@ -896,7 +936,7 @@ async fn exec(w: &Rc<World>, t: &Rc<TaskCtx>, cc: &Rc<ClientCtx>, op: &Op) -> St
                     hist.obj_ids.push(obj.id());
                 }
                 w.bus_mutation(ci);
-                if let Some(old) = cc.objs[*o as usize].put(Rc::new(obj)) {
+                if let Some(old) = cc.objs[*o as usize].put(Tracked::new(obj, cookie_of_obj, w)) {
                     w.note_object_teardown(ci, old.id().cookie.0);
                     drop(old);
                 }
@@ -906,6 +946,7 @@ async fn exec(w: &Rc<World>, t: &Rc<TaskCtx>, cc: &Rc<ClientCtx>, op: &Op) -> St
         Op::DestroyObject { o } => {
             let Some(obj) = cc.objs[*o as usize].get() else { return skip(w) };
             w.note_object_teardown(ci, obj.id().cookie.0);
+            w.hist_teardown_start_obj(obj.id().cookie.0);
             let r = t.req("destroy_object", obj.destroy()).await;
             if matches!(r, Ok(()) | Err(Error::InvalidObject)) {
                 w.board.borrow_mut().destroyed_objs.insert(obj.id().cookie.0);
@@ -944,6 +985,7 @@ async fn exec(w: &Rc<World>, t: &Rc<TaskCtx>, cc: &Rc<ClientCtx>, op: &Op) -> St
                 }
                 if let Some(old) = cc.svcs[*s as usize].put(svc) {
                     w.note_service_teardown(ci, old.id().cookie.0);
+                    w.hist_teardown_start_svc(old.id().cookie.0);
                     drop(old);
                 }
             }
@@ -953,6 +995,7 @@ async fn exec(w: &Rc<World>, t: &Rc<TaskCtx>, cc: &Rc<ClientCtx>, op: &Op) -> St
             let Some(svc) = cc.svcs[*s as usize].take() else { return skip(w) };
             let cookie = svc.id().cookie.0;
             w.note_service_teardown(ci, cookie);
+            w.hist_teardown_start_svc(cookie);
             let r = t.req("destroy_service", svc.destroy()).await;
             if matches!(r, Ok(()) | Err(Error::InvalidService)) {
                 w.board.borrow_mut().destroyed_svcs.insert(cookie);
@@ -965,6 +1008,7 @@ async fn exec(w: &Rc<World>, t: &Rc<TaskCtx>, cc: &Rc<ClientCtx>, op: &Op) -> St
         Op::DropService { s } => match cc.svcs[*s as usize].take() {
             Some(svc) => {
                 w.note_service_teardown(ci, svc.id().cookie.0);
+                w.hist_teardown_start_svc(svc.id().cookie.0);
                 w.bus_mutation(ci);
                 drop(svc);
                 "dropped".into()
@@ -1702,6 +1746,7 @@ async fn exec(w: &Rc<World>, t: &Rc<TaskCtx>, cc: &Rc<ClientCtx>, op: &Op) -> St
             let txt = res_name(&r);
             match r {
                 Ok(scope) => {
+                    let cookie_of_scope = scope.id().0.cookie.0;
                     {
                         let mut hist = w.hist.borrow_mut();
                         let t1 = hist.tick();
@@ -1713,7 +1758,7 @@ async fn exec(w: &Rc<World>, t: &Rc<TaskCtx>, cc: &Rc<ClientCtx>, op: &Op) -> St
                         b.scopes.push(Some(scope.id()));
                         b.scope_owner.insert(scope.id(), ci);
                     }
-                    if let Some(old) = cc.scopes[*sc as usize].put(Rc::new(scope)) {
+                    if let Some(old) = cc.scopes[*sc as usize].put(Tracked::new(scope, cookie_of_scope, w)) {
                         w.board.borrow_mut().ended_scopes.insert(old.id());
                         w.note_object_teardown(ci, old.id().0.cookie.0);
                         drop(old);
@@ -1726,6 +1771,7 @@ async fn exec(w: &Rc<World>, t: &Rc<TaskCtx>, cc: &Rc<ClientCtx>, op: &Op) -> St
         Op::EndScope { sc } => {
             let Some(scope) = cc.scopes[*sc as usize].get() else { return skip(w) };
             w.note_object_teardown(ci, scope.id().0.cookie.0);
+            w.hist_teardown_start_obj(scope.id().0.cookie.0);
             let r = t.req("end_lifetime_scope", scope.end()).await;
             if matches!(r, Ok(()) | Err(Error::InvalidLifetime)) {
                 w.board.borrow_mut().ended_scopes.insert(scope.id());
